@@ -1300,6 +1300,12 @@ pub fn run(o: &Opts, rec: &mut Recorder) {
         let line = gen::acl_world(&mut r).line();
         exec(&line, rec);
     }
+    // two-step histories: a cached NS-host address inside a deny_server network (all 128 variants in quick)
+    if !o.replay_only {
+        for v in 0..128u32 {
+            exec(&gen::cached_ns_world(v).line(), rec);
+        }
+    }
     // alias graphs with fan-out (termination clause: the CNAME budget bounds the work, not the number of names)
     let n = o.n(120, 3000);
     for i in 0..n {
@@ -2207,6 +2213,14 @@ pub mod gen {
             out.push(("alias-dag-small-2x2-within-budget", dag_world(3, 2, 2, false, DagEnd::Address, 24, 24, 28, true)));
             out.push(("alias-dag-dead-ends", dag_world(5, 3, 3, false, DagEnd::Nothing, 24, 24, 1, false)));
         }
+        // 19. the cached address of a glueless NS host lies in a deny_server network (two-step histories)
+        {
+            out.push(("cached-ns-address-denied-v4-foreign-host", cached_ns_world(0)));
+            out.push(("cached-ns-address-denied-v6-sibling-host-via-alias", cached_ns_world(1 | 2 | 4 | 32)));
+            out.push(("cached-ns-address-denied-one-of-two-v4", cached_ns_world(8 | 64)));
+            out.push(("cached-ns-address-denied-one-of-two-v6-via-alias", cached_ns_world(1 | 4 | 8)));
+            out.push(("cached-ns-address-no-deny-list-control", cached_ns_world(16)));
+        }
         // 13b. negative answer carrying an in-bailiwick address the answer filter denies
         {
             let mut w = base(false);
@@ -2331,6 +2345,57 @@ pub mod gen {
             if r.chance(1, 3) {
                 c.allow_ans = pick_list(r, 1, 2);
             }
+        }
+        c
+    }
+
+    /// Two-step histories around the cached-address step of `ns_pool_for_name`: step 1 is an ordinary client query
+    /// that puts the address of a name-server host into the response cache (directly or as a CNAME target); the
+    /// address passes the answer filter but lies in a `deny_server` network.  Step 2 resolves a name below a
+    /// glueless delegation to that host: the denied address must not be contacted (a second, allowed address of the
+    /// same host may).  `variant` bits: 0 v6, 1 sibling host (in the parent's bailiwick) instead of a foreign one,
+    /// 2 warm-up through an alias, 3 the host has an allowed address too, 4 no deny list (control), 5..6 prefix class.
+    pub fn cached_ns_world(variant: u32) -> Case {
+        use super::acl::v6;
+        let six = variant & 1 != 0;
+        let sibling = variant & 2 != 0;
+        let via_alias = variant & 4 != 0;
+        let also_allowed = variant & 8 != 0;
+        let control = variant & 16 != 0;
+        let denied_ip = if six { v6((0xfd00u128 << 112) | 0x53) } else { v4(172, 16, 0, 53) };
+        let mut w = base(false);
+        let gh = w.std_group(1);
+        w.zone("hoster.net.", gh, &["ns.hoster.net."], true);
+        let ge = w.std_group(1);
+        w.zone("example.com.", ge, &["ns.example.com."], true);
+        let k = w.group_ips.len() as u8;
+        let mut ips = vec![denied_ip];
+        if also_allowed {
+            ips.push(v4(44, 0, k, 1));
+        }
+        let gs = w.group(ips);
+        let host = if sibling { "dns.example.com." } else { "dns.hoster.net." };
+        w.zone("sub.example.com.", gs, &[host], false);
+        let r = w.a("www.sub.example.com.", v4(44, 1, 1, 1));
+        w.add_auto(r);
+        let alias = if sibling { "alias.example.com." } else { "alias.hoster.net." };
+        let r = w.cname(alias, host);
+        w.add_auto(r);
+        w.finish();
+        let qh = w.intern(host);
+        let qa = w.intern(alias);
+        let qw = w.intern("www.sub.example.com.");
+        let t = if six { 28 } else { 1 };
+        let roots = w.group_ips[0].clone();
+        let mut c = w.case(roots, vec![(if via_alias { qa } else { qh }, t), (qw, 1), (qw, 1)], 24, 24);
+        if !control {
+            let len = match (variant >> 5) & 3 {
+                0 => if six { 8 } else { 12 },
+                1 => if six { 64 } else { 24 },
+                2 => if six { 128 } else { 32 },
+                _ => if six { 7 } else { 16 },
+            };
+            c.deny_srv = vec![IpNet::new(denied_ip, len).unwrap().trunc()];
         }
         c
     }
